@@ -150,6 +150,31 @@ def run(chk):
             p0 = max(0, v + r.choice([0, 0, 0, 1, -1]))
             buf = bytearray(r.choice(b" .") for _ in range(p0 + len(strs[0]) + r.below(4)))
             buf[p0:p0 + len(strs[0])] = strs[0]
+        if i % 10 == 1:
+            # aimed at the loop-variable frames: 3 or 4 nested loops (ranges, lists, and a `for..of` innermost) whose verdict depends on the
+            # variables and quantifiers of EVERY level (each loop keeps counters, quantifier and variable in its own frame of the VM memory)
+            depth = r.choice([3, 3, 4])
+            nv = depth
+            def cmpv(a, b):
+                return ("cmp", r.choice(["eq", "lt", "le", "ne", "ge"]), a, b)
+            vs = [("var", k) for k in range(nv)]
+            body = r.choice([
+                cmpv(("add", vs[0], vs[1]), ("add", vs[nv - 1], ("lit", r.below(4)))),
+                ("and", cmpv(vs[nv - 1], vs[0]), cmpv(vs[1], ("lit", r.below(4)))),
+                cmpv(("add", ("mul", vs[nv - 1], ("lit", 3)), vs[nv - 2]), ("add", ("mul", vs[0], ("lit", 2)), vs[1])),
+                ("forof", r.choice(["any", "all", ("num", ("lit", 1))]), [0, 1, 2], ("or", ("cur",), cmpv(vs[1], vs[nv - 1]))),
+            ])
+            t = body
+            for lvl in range(depth):
+                q = r.choice(["any", "all", "none", ("num", ("lit", 1)), ("num", ("lit", 2)), ("num", ("lit", 3))])
+                if r.chance(2, 3):
+                    t = ("forin", q, ("lit", r.below(3)), ("lit", r.range(2, 5)), t)
+                else:
+                    t = ("forlist", q, [("lit", r.below(6)) for _ in range(r.range(2, 4))], t)
+            if r.chance(1, 4):
+                t = ("not", t)
+            trees, names = [t], ["r0"]
+            src = "rule r0 { strings: %s condition: %s }\n" % (decl, condgen.Printer(names).raw(t))
         if i % 10 == 5:
             # aimed at the selection of the strings of a set: the identifier of string 0 is a proper prefix of string 1's, sets naming one of
             # them (or the wildcard form of both), on data where exactly one of the two occurs
